@@ -253,6 +253,25 @@ def gen_inverse(tu, fname):
     if len(loops) != 3:
         raise jast.ExtractionError("fp_inverse: expected 3 loops, found %d" % len(loops))
     names = locals_of(f)
+
+    def refs(n, acc):
+        if n.get("kind") == "DeclRefExpr" and n.get("referencedDecl", {}).get("name") in ("u", "v", "b", "c"):
+            acc.add(n["referencedDecl"]["name"])
+        for c_ in n.get("inner", []) or []:
+            refs(c_, acc)
+        return acc
+    # which pair each halving loop works on is read off the loop itself (u,b or v,c), not its position
+    pair_of = {}
+    for ix in (1, 2):
+        r_ = refs(loops[ix], set())
+        if r_ == {"u", "b"}:
+            pair_of[ix] = "u"
+        elif r_ == {"v", "c"}:
+            pair_of[ix] = "v"
+        else:
+            raise jast.ExtractionError("fp_inverse: inner loop %d works on %s (expected the pair u,b or v,c)" % (ix, sorted(r_)))
+    if sorted(pair_of.values()) != ["u", "v"]:
+        raise jast.ExtractionError("fp_inverse: the two inner loops work on the same pair")
     R2 = pow(2, 2 * bits, p)
     K = Poly.var("K")
     MODES = ["base", "step-outer", "step-halve-u", "step-halve-v", "exit"]
@@ -386,6 +405,8 @@ def gen_inverse(tu, fname):
 
             def guard(I_, n, env):
                 init, cond, inc, body = for_parts(n)
+                if not cond.get("kind"):
+                    return True                 # for (;;)
                 return I_.truth(I_.rv(I_.ev(cond, env)), n)
 
             def cut_outer(I_, n, env):
@@ -408,9 +429,12 @@ def gen_inverse(tu, fname):
                     obs.append(entails(st["M"] - PP(u.val) - PP(v.val) - 1, ">=0", "outer step: the variant u + v strictly decreases (and stays >= 2)"))
                     finish(obs)
                 if mode == "exit":
-                    if guard(I_, n, env):
-                        raise Abandon()
-                    return                      # continue with the real epilogue
+                    # an exit is either the guard being false (the real epilogue follows) or a `return` inside the body before any inner loop
+                    if not guard(I_, n, env):
+                        return
+                    init, cond, inc, body = for_parts(n)
+                    I_.exec(body, env)          # a return statement unwinds through here to the caller of I.call; the inner cuts abandon the path
+                    raise Abandon()
                 # inner-loop steps: enter the body (guard true), the inner handlers take over
                 went = run_iteration(I_, n, env)
                 if not went:
@@ -450,17 +474,20 @@ def gen_inverse(tu, fname):
                         same = (PP(other.val) - pre[oname]).is_zero() and (PP(oc.val) - pre[ocname]).is_zero()
                         obs.append(("halving step (%s): frame -- %s and %s untouched" % (which, oname, ocname), "ok" if same else "fail", "", None))
                         finish(obs)
-                    if mode == "step-halve-v" and which == "u":
+                    if mode.startswith("step-halve-") and mode != "step-halve-" + which:
+                        # the other halving loop comes first in the body: pass through it by its contract
                         havoc(env, which)
                         if guard(I_, n, env):
                             raise Abandon()
                         return
+                    if mode == "exit":
+                        raise Abandon()         # not an exit path
                     raise SymxError("unexpected inner cut in mode " + mode)
                 return h
 
             I.loop_cuts[loops[0]["id"]] = cut_outer
-            I.loop_cuts[loops[1]["id"]] = cut_inner("u")
-            I.loop_cuts[loops[2]["id"]] = cut_inner("v")
+            I.loop_cuts[loops[1]["id"]] = cut_inner(pair_of[1])
+            I.loop_cuts[loops[2]["id"]] = cut_inner(pair_of[2])
             try:
                 I.call(f, None, [res, a], force_body=True)
             except CutDone as e:
